@@ -58,7 +58,8 @@ def inOnly : Step → Bool
     an acquire is followed by its release before any other lock operation, the two halves of a
     write are adjacent, carry the same frame and sit inside the lock, there is at most one write
     per call (nothing is written after a release), the state checks of `session.write` sit inside
-    the lock before the write, early returns / branches / the end of `close()` are outside the lock. -/
+    the lock before the write, early returns / branches / the end of `close()` are outside the lock,
+    the socket is shut (`sockClose`) inside the lock. -/
 def disc : List Step → Bool
   | [] => true
   | st :: r =>
@@ -68,6 +69,7 @@ def disc : List Step → Bool
      | .release => !holds r && noWrite r
      | .write1 f => holds r && (match r with | .write2 g :: _ => f = g | _ => false)
      | .write2 _ => holds r && noWrite r
+     | .sockClose => holds r
      | _ => if outOnly st then !holds r else if inOnly st then holds r && !noWrite r else true) &&
     (match st with
      | .write1 _ => true
@@ -165,13 +167,14 @@ theorem alt_noWrite (v : Variant) (a : Alt) : noWrite (altSteps v a) = true := b
 inductive Moves (v : Variant) : Step → List Step → List Step → Prop
   | next (st r) : Moves v st r r
   | ret (st r) : (st = .retIfClosed ∨ st = .retIfClosing) → Moves v st r (afterClose r)
-  | fail (st r) : (st = .chkSock ∨ st = .chkClosed ∨ st = .chkClosing ∨ st = .chkBoth) → Moves v st r (toRelease r)
+  | fail (st r) : (st = .chkSock ∨ st = .chkClosed ∨ st = .chkClosing ∨ st = .chkBoth ∨ isWrite st = true) →
+      Moves v st r (toRelease r)
   | alt (a r) : Moves v (.brIfClosing a) r (altSteps v a)
   | altErr (a r) : Moves v (.brIfErr a) r (altSteps v a)
 
 theorem exec_moves (v : Variant) (t : Tid) (st : Step) (r : List Step) (sh : Shared) (c : Cur) :
     Moves v st r (exec v t st r sh c).2.rest := by
-  cases st <;> simp only [exec] <;> (repeat' split) <;>
+  cases st <;> simp only [exec, failWrite] <;> (repeat' split) <;>
     first
     | exact Moves.next _ _
     | exact Moves.ret _ _ (Or.inl rfl)
@@ -179,13 +182,14 @@ theorem exec_moves (v : Variant) (t : Tid) (st : Step) (r : List Step) (sh : Sha
     | exact Moves.fail _ _ (Or.inl rfl)
     | exact Moves.fail _ _ (Or.inr (Or.inl rfl))
     | exact Moves.fail _ _ (Or.inr (Or.inr (Or.inl rfl)))
-    | exact Moves.fail _ _ (Or.inr (Or.inr (Or.inr rfl)))
+    | exact Moves.fail _ _ (Or.inr (Or.inr (Or.inr (Or.inl rfl))))
+    | exact Moves.fail _ _ (Or.inr (Or.inr (Or.inr (Or.inr rfl))))
     | exact Moves.alt _ _
     | exact Moves.altErr _ _
 
 theorem moves_eq {v : Variant} {st : Step} {r r' : List Step} (m : Moves v st r r') :
     r' = r ∨ ((st = .retIfClosed ∨ st = .retIfClosing) ∧ r' = afterClose r) ∨
-      ((st = .chkSock ∨ st = .chkClosed ∨ st = .chkClosing ∨ st = .chkBoth) ∧ r' = toRelease r) ∨
+      ((st = .chkSock ∨ st = .chkClosed ∨ st = .chkClosing ∨ st = .chkBoth ∨ isWrite st = true) ∧ r' = toRelease r) ∨
       (∃ a, (st = .brIfClosing a ∨ st = .brIfErr a) ∧ r' = altSteps v a) := by
   cases m with
   | next => exact Or.inl rfl
@@ -228,10 +232,14 @@ theorem moves_holds {v : Variant} {st : Step} {r r' : List Step} (m : Moves v st
       simp only [disc, outOnly, Bool.and_eq_true] at d <;> simp_all [holdsAfter]
   | fail _ _ h =>
     have : holds r = true := by
-      rcases h with h | h | h | h <;> subst h <;>
-        simp only [disc, outOnly, inOnly, Bool.and_eq_true] at d <;> simp_all
+      rcases h with h | h | h | h | h
+      iterate 4 (subst h; simp only [disc, outOnly, inOnly, Bool.and_eq_true] at d; simp_all)
+      cases st <;> simp only [isWrite] at h <;> (try cases h) <;>
+        (simp only [disc, Bool.and_eq_true] at d; simp_all)
     rw [holds_toRelease r this]
-    rcases h with h | h | h | h <;> subst h <;> simp [holdsAfter, this]
+    rcases h with h | h | h | h | h
+    iterate 4 (subst h; simp [holdsAfter, this])
+    cases st <;> simp only [isWrite] at h <;> (try cases h) <;> simp [holdsAfter, this]
   | alt a _ =>
     rw [alt_holds]
     simp only [disc, outOnly, Bool.and_eq_true] at d
@@ -434,18 +442,29 @@ theorem lockInv_run (v : Variant) (cfg : Cfg) (s : State) (sched : List Tid) (in
 theorem exec_wire (v : Variant) (t : Tid) (st : Step) (r : List Step) (sh : Shared) (c : Cur) :
     (exec v t st r sh c).1.wire =
       match st with
-      | .write1 f => sh.wire ++ [⟨t, c.idx, false, descOf f c⟩]
-      | .write2 f => sh.wire ++ [⟨t, c.idx, true, descOf f c⟩]
+      | .write1 f => if sh.sockShut = true then sh.wire else sh.wire ++ [⟨t, c.idx, false, descOf f c⟩]
+      | .write2 f => if sh.sockShut = true then sh.wire else sh.wire ++ [⟨t, c.idx, true, descOf f c⟩]
       | _ => sh.wire := by
-  cases st <;> simp only [exec] <;> (repeat' split) <;> rfl
+  cases st <;> simp only [exec, failWrite] <;> (repeat' split) <;> rfl
+
+/-- the socket, once shut, stays shut; only `sockClose` shuts it -/
+theorem exec_shut (v : Variant) (t : Tid) (st : Step) (r : List Step) (sh : Shared) (c : Cur) :
+    (exec v t st r sh c).1.sockShut = (sh.sockShut || decide (st = .sockClose)) := by
+  cases st <;> simp only [exec, failWrite] <;> (repeat' split) <;> simp
+
+/-- a write on a shut socket: TransportFail, nothing written, on to the release -/
+theorem exec_write_shut (v : Variant) (t : Tid) (st : Step) (r : List Step) (sh : Shared) (c : Cur)
+    (hw : isWrite st = true) (hs : sh.sockShut = true) :
+    exec v t st r sh c = (sh, { c with rest := toRelease r, err := some .transport }) := by
+  cases st <;> simp only [isWrite] at hw <;> (try cases hw) <;> simp [exec, failWrite, hs]
 
 theorem exec_idx (v : Variant) (t : Tid) (st : Step) (r : List Step) (sh : Shared) (c : Cur) :
     (exec v t st r sh c).2.idx = c.idx := by
-  cases st <;> simp only [exec] <;> (repeat' split) <;> rfl
+  cases st <;> simp only [exec, failWrite] <;> (repeat' split) <;> rfl
 
 theorem exec_zout (v : Variant) (t : Tid) (st : Step) (r : List Step) (sh : Shared) (c : Cur)
     (h : st ≠ .flush) : (exec v t st r sh c).2.zout = c.zout := by
-  cases st <;> simp only [exec] <;> (repeat' split) <;> first | rfl | exact absurd rfl h
+  cases st <;> simp only [exec, failWrite] <;> (repeat' split) <;> first | rfl | exact absurd rfl h
 
 theorem descOf_congr (f : FrameSrc) (c c' : Cur) (h : c'.zout = c.zout) : descOf f c' = descOf f c := by
   simp [descOf, h]
@@ -479,13 +498,14 @@ structure WireInv (v : Variant) (cfg : Cfg) (s : State) : Prop where
   mid : ∀ t c f r, (s.th t).current v cfg = some c → c.rest = .write2 f :: r →
     s.sh.wire = pairs (frames s.sh.wire) ++ [⟨t, c.idx, false, descOf f c⟩]
   whole : (∀ t, headW2 (view v cfg (s.th t)) = false) → s.sh.wire = pairs (frames s.sh.wire)
+  /-- the socket is shut under the write lock: nobody is in the middle of a frame when (and after) it happens -/
+  shut : s.sh.sockShut = true → ∀ t, headW2 (view v cfg (s.th t)) = false
 
 theorem wireInv_init (v : Variant) (cfg : Cfg) (progs : Tid → List Call) : WireInv v cfg (init progs) := by
-  constructor
-  · intro t c f r hc hr
-    have := headW2_of_rest hc hr
-    rw [fresh_headW2 v cfg _ rfl] at this; cases this
-  · intro _; rfl
+  refine ⟨?_, fun _ => rfl, fun _ t => fresh_headW2 v cfg _ rfl⟩
+  intro t c f r hc hr
+  have := headW2_of_rest hc hr
+  rw [fresh_headW2 v cfg _ rfl] at this; cases this
 
 /-- only the lock holder can stand before a `write2` -/
 theorem headW2_unique {v : Variant} {cfg : Cfg} {s : State} (L : LockInv v cfg s) {t u : Tid}
@@ -493,6 +513,10 @@ theorem headW2_unique {v : Variant} {cfg : Cfg} {s : State} (L : LockInv v cfg s
   have h1 := (L.holder t).mp ht
   have h2 := (L.holder u).mp (headW2_holds (L.disc u) hu)
   rw [h1] at h2; exact (Option.some.inj h2).symm
+
+theorem disc_sockClose {r : List Step} (d : disc (.sockClose :: r) = true) : holds (Step.sockClose :: r) = true := by
+  simp only [disc, Bool.and_eq_true] at d
+  simpa [holds] using d.1.2
 
 theorem wireInv_step (v : Variant) (cfg : Cfg) (s : State) (t : Tid) (L : LockInv v cfg s)
     (W : WireInv v cfg s) : WireInv v cfg (step v cfg s t) := by
@@ -506,7 +530,12 @@ theorem wireInv_step (v : Variant) (cfg : Cfg) (s : State) (t : Tid) (L : LockIn
     have hw := exec_wire v t st r s.sh c
     have hi := exec_idx v t st r s.sh c
     have hz := exec_zout v t st r s.sh c
-    generalize exec v t st r s.sh c = p at m hw hi hz
+    have hsh := exec_shut v t st r s.sh c
+    have hrs : isWrite st = true → s.sh.sockShut = true → (exec v t st r s.sh c).2.rest = toRelease r :=
+      fun a b => by rw [exec_write_shut v t st r s.sh c a b]
+    have hrn : ∀ f, st = .write1 f → s.sh.sockShut = false → (exec v t st r s.sh c).2.rest = r := by
+      intro f hf hs; subst hf; simp [exec, hs]
+    generalize exec v t st r s.sh c = p at m hw hi hz hsh hrs hrn
     have hview : headW2 (view v cfg (settle (s.th t) p.2)) = headW2 p.2.rest :=
       view_settle_headW2 v cfg _ _ hh
     -- other threads: unchanged, and none of them stands before a write2 when `t` holds the lock
@@ -515,9 +544,9 @@ theorem wireInv_step (v : Variant) (cfg : Cfg) (s : State) (t : Tid) (L : LockIn
       cases hw2 : headW2 (view v cfg (s.th u)) with
       | false => rfl
       | true => exact absurd (headW2_unique L (hv ▸ hl) hw2) hu
-    by_cases h1 : ∃ f, st = .write1 f
+    by_cases h1 : (∃ f, st = .write1 f) ∧ s.sh.sockShut = false
     · -- first half
-      obtain ⟨f, rfl⟩ := h1
+      obtain ⟨⟨f, rfl⟩, hns⟩ := h1
       have hl : holds (Step.write1 f :: r) = true := by
         simp only [disc, Bool.and_eq_true] at d; simpa [holds] using d.1.2.1
       have hr2 : ∃ r2, r = .write2 f :: r2 := by
@@ -527,20 +556,15 @@ theorem wireInv_step (v : Variant) (cfg : Cfg) (s : State) (t : Tid) (L : LockIn
         | nil => simp at this
         | cons a r2 => cases a <;> simp at this; subst this; exact ⟨r2, rfl⟩
       obtain ⟨r2, rfl⟩ := hr2
-      have hrest : p.2.rest = .write2 f :: r2 := by
-        rcases moves_eq m with h | ⟨h, _⟩ | ⟨h, _⟩ | ⟨a, h, _⟩
-        · exact h
-        · rcases h with h | h <;> cases h
-        · rcases h with h | h | h | h <;> cases h
-        · rcases h with h | h <;> cases h
+      have hrest : p.2.rest = .write2 f :: r2 := hrn f rfl hns
       have hbefore : s.sh.wire = pairs (frames s.sh.wire) := by
         apply W.whole
         intro u
         by_cases hu : u = t
         · subst hu; rw [hv]; rfl
         · exact other u hu hl
-      simp only at hw
-      constructor
+      simp only [hns, Bool.false_eq_true, if_false] at hw
+      refine ⟨?_, ?_, ?_⟩
       · intro u cu g ru hcu hru
         by_cases hu : u = t
         · subst hu
@@ -559,9 +583,12 @@ theorem wireInv_step (v : Variant) (cfg : Cfg) (s : State) (t : Tid) (L : LockIn
         have := hall t
         rw [setTh_same, hview, hrest] at this
         cases this
-    · by_cases h2 : ∃ f, st = .write2 f
+      · intro hs
+        rw [setTh_sh, hsh, hns] at hs
+        simp at hs
+    · by_cases h2 : (∃ f, st = .write2 f) ∧ s.sh.sockShut = false
       · -- second half
-        obtain ⟨f, rfl⟩ := h2
+        obtain ⟨⟨f, rfl⟩, hns⟩ := h2
         have hl : holds (Step.write2 f :: r) = true := by
           simp only [disc, Bool.and_eq_true] at d; simpa [holds] using d.1.2.1
         have hmid := W.mid t c f r hc hr
@@ -571,14 +598,14 @@ theorem wireInv_step (v : Variant) (cfg : Cfg) (s : State) (t : Tid) (L : LockIn
           | true =>
             obtain ⟨g, hg, _⟩ := moves_headW2 m d hw2
             cases hg
-        simp only at hw
+        simp only [hns, Bool.false_eq_true, if_false] at hw
         have hnew : p.1.wire = pairs (frames p.1.wire) := by
           rw [hw, frames_append]
           have : frames [(⟨t, c.idx, true, descOf f c⟩ : Chunk)] = [⟨t, c.idx, true, descOf f c⟩] := rfl
           rw [this, pairs_append]
           conv => lhs; rw [hmid]
           simp [pairs]
-        constructor
+        refine ⟨?_, fun _ => hnew, ?_⟩
         · intro u cu g ru hcu hru
           by_cases hu : u = t
           · subst hu
@@ -588,19 +615,39 @@ theorem wireInv_step (v : Variant) (cfg : Cfg) (s : State) (t : Tid) (L : LockIn
           · rw [setTh_other _ _ _ _ _ hu] at hcu
             have := other u hu hl
             rw [headW2_of_rest hcu hru] at this; cases this
-        · intro _; exact hnew
-      · -- any other step leaves the wire alone, and `t` is not before a write2 afterwards
+        · intro hs
+          rw [setTh_sh, hsh, hns] at hs
+          simp at hs
+      · -- any other step (a write on a shut socket included) leaves the wire alone, and `t` is not before a
+        -- write2 afterwards
+        have hshut_of_write : isWrite st = true → s.sh.sockShut = true := by
+          intro hwst
+          cases hsx : s.sh.sockShut with
+          | true => rfl
+          | false =>
+            cases st <;> simp only [isWrite] at hwst <;> try cases hwst
+            · exact absurd ⟨⟨_, rfl⟩, hsx⟩ h1
+            · exact absurd ⟨⟨_, rfl⟩, hsx⟩ h2
         have hw' : p.1.wire = s.sh.wire := by
-          rw [hw]; cases st <;> first | rfl | exact absurd ⟨_, rfl⟩ h1 | exact absurd ⟨_, rfl⟩ h2
+          rw [hw]
+          cases st <;> first
+            | rfl
+            | (have := hshut_of_write rfl; simp [this])
         have hnot : headW2 p.2.rest = false := by
           cases hw2 : headW2 p.2.rest with
           | false => rfl
           | true =>
             obtain ⟨g, hg, _⟩ := moves_headW2 m d hw2
-            exact absurd ⟨g, hg⟩ h1
+            subst hg
+            rw [hrs rfl (hshut_of_write rfl), headW2_toRelease] at hw2; cases hw2
         have hbefore : headW2 (view v cfg (s.th t)) = false := by
-          rw [hv]; cases st <;> first | rfl | exact absurd ⟨_, rfl⟩ h2
-        constructor
+          cases hx : headW2 (view v cfg (s.th t)) with
+          | false => rfl
+          | true =>
+            have hwst : isWrite st = true := by
+              rw [hv] at hx; cases st <;> first | rfl | cases hx
+            rw [W.shut (hshut_of_write hwst) t] at hx; cases hx
+        refine ⟨?_, ?_, ?_⟩
         · intro u cu g ru hcu hru
           by_cases hu : u = t
           · subst hu
@@ -618,6 +665,18 @@ theorem wireInv_step (v : Variant) (cfg : Cfg) (s : State) (t : Tid) (L : LockIn
           · subst hu; exact hbefore
           · have := hall u
             rwa [setTh_other _ _ _ _ _ hu] at this
+        · intro hs u
+          rw [setTh_sh, hsh] at hs
+          by_cases hu : u = t
+          · subst hu; rw [setTh_same, hview]; exact hnot
+          · rw [setTh_other _ _ _ _ _ hu]
+            cases hsx : s.sh.sockShut with
+            | true => exact W.shut hsx u
+            | false =>
+              rw [hsx] at hs
+              have : st = .sockClose := by simpa using hs
+              subst this
+              exact other u hu (disc_sockClose d)
 
 /-- both invariants together along a run -/
 theorem inv_run (v : Variant) (cfg : Cfg) (s : State) (sched : List Tid)
@@ -678,12 +737,14 @@ def isW2 : Step → Bool
   | _ => false
 
 theorem exec_wrote (v : Variant) (t : Tid) (st : Step) (r : List Step) (sh : Shared) (c : Cur) :
-    (exec v t st r sh c).2.wrote = (isW2 st || c.wrote) := by
-  cases st <;> simp only [exec] <;> (repeat' split) <;> rfl
+    (exec v t st r sh c).2.wrote = ((isW2 st && !sh.sockShut) || c.wrote) := by
+  cases st <;> simp only [exec, failWrite] <;> (repeat' split) <;> simp_all [isW2]
 
-theorem exec_w2 (v : Variant) (t : Tid) (f : FrameSrc) (r : List Step) (sh : Shared) (c : Cur) :
+theorem exec_w2 (v : Variant) (t : Tid) (f : FrameSrc) (r : List Step) (sh : Shared) (c : Cur)
+    (hs : sh.sockShut = false) :
     (exec v t (.write2 f) r sh c).1.wire = sh.wire ++ [⟨t, c.idx, true, descOf f c⟩] ∧
-    (exec v t (.write2 f) r sh c).2.wrote = true := ⟨rfl, rfl⟩
+    (exec v t (.write2 f) r sh c).2.wrote = true := by
+  simp [exec, hs]
 
 structure MsgInv (v : Variant) (cfg : Cfg) (s : State) : Prop where
   len : ∀ t, (s.th t).results.length = (s.th t).pc
@@ -777,11 +838,19 @@ theorem idxs_append_same (w : List Chunk) (x : Chunk) (h : x.second = true) :
   simp [frames, h, List.filter_append]
 
 theorem exec_not_w2 (v : Variant) (t : Tid) (st : Step) (r : List Step) (sh : Shared) (c : Cur)
-    (h : isW2 st = false) :
+    (h : (isW2 st && !sh.sockShut) = false) :
     (∀ u, idxs (exec v t st r sh c).1.wire u = idxs sh.wire u) ∧ (exec v t st r sh c).2.wrote = c.wrote := by
   cases st with
-  | write2 f => cases h
-  | write1 f => exact ⟨fun u => idxs_append_other _ _ u (Or.inr rfl), rfl⟩
+  | write2 f =>
+    have hs : sh.sockShut = true := by simpa [isW2] using h
+    simp [exec, failWrite, hs]
+  | write1 f =>
+    cases hs : sh.sockShut with
+    | true => simp [exec, failWrite, hs]
+    | false =>
+      refine ⟨fun u => ?_, by simp [exec, hs]⟩
+      have : (exec v t (.write1 f) r sh c).1.wire = sh.wire ++ [⟨t, c.idx, false, descOf f c⟩] := by simp [exec, hs]
+      rw [this]; exact idxs_append_other _ _ u (Or.inr rfl)
   | _ => refine ⟨fun u => ?_, ?_⟩ <;> simp only [exec] <;> (repeat' split) <;> rfl
 
 theorem msgInv_step (v : Variant) (cfg : Cfg) (s : State) (t : Tid) (L : LockInv v cfg s)
@@ -814,11 +883,12 @@ theorem msgInv_step (v : Variant) (cfg : Cfg) (s : State) (t : Tid) (L : LockInv
         · simp [hlen]
         · exact hlen
       · rw [setTh_other _ _ _ _ _ hu]; exact M.len u
-    cases hw2 : isW2 st with
+    cases hw2 : (isW2 st && !s.sh.sockShut) with
     | true =>
       obtain ⟨f, rfl⟩ : ∃ f, st = .write2 f := by
-        cases st <;> first | exact ⟨_, rfl⟩ | cases hw2
-      obtain ⟨hw, hwr⟩ := exec_w2 v t f r s.sh c
+        cases st <;> first | exact ⟨_, rfl⟩ | (simp [isW2] at hw2)
+      have hns : s.sh.sockShut = false := by simpa [isW2] using hw2
+      obtain ⟨hw, hwr⟩ := exec_w2 v t f r s.sh c hns
       generalize exec v t (.write2 f) r s.sh c = p at m hi hw hwr
       have hpi : p.2.idx = (s.th t).pc := by rw [hi]; exact hcidx.1
       have hnw : noWrite r = true := by
@@ -1014,13 +1084,15 @@ theorem noWrite_toRelease (r : List Step) (d : disc r = true) : noWrite (toRelea
     simp [noWrite, isWrite] at d ⊢
     exact d.1.2.2
 
-/-- either the step is not a failing check (the error register is unchanged and, unless the step
-    is an early return / branch, the thread moves to the next step), or it is one (the register is
-    set and the thread continues at the release) -/
+/-- either the step is not a failing check / a write on a shut socket (the error register is unchanged and,
+    unless the step is an early return / branch, the thread moves to the next step), or it is one (the
+    register is set, nothing is written and the thread continues at the release) -/
 theorem exec_err (v : Variant) (t : Tid) (st : Step) (r : List Step) (sh : Shared) (c : Cur) :
-    ((exec v t st r sh c).2.err = c.err ∧ ((exec v t st r sh c).2.rest = r ∨ isJump st = true)) ∨
-    ((exec v t st r sh c).2.err ≠ none ∧ inOnly st = true ∧ (exec v t st r sh c).2.rest = toRelease r) := by
-  cases st <;> simp only [exec] <;> (repeat' split) <;> simp [isJump, inOnly]
+    ((exec v t st r sh c).2.err = c.err ∧ ((exec v t st r sh c).2.rest = r ∨ isJump st = true) ∧
+      (exec v t st r sh c).2.wrote = (isW2 st || c.wrote)) ∨
+    ((exec v t st r sh c).2.err ≠ none ∧ (inOnly st = true ∨ isWrite st = true) ∧
+      (exec v t st r sh c).2.rest = toRelease r ∧ (exec v t st r sh c).2.wrote = c.wrote) := by
+  cases st <;> simp only [exec, failWrite] <;> (repeat' split) <;> simp [isJump, inOnly, isWrite, isW2]
 
 /-- per-thread facts about the call in progress -/
 def CurOk (cfg : Cfg) (th : Thread) (c : Cur) : Prop :=
@@ -1067,7 +1139,6 @@ theorem callInv_step (v : Variant) (cfg : Cfg) (s : State) (t : Tid) (L : LockIn
     have m := exec_moves v t st r s.sh c
     have hi := exec_idx v t st r s.sh c
     have hw := exec_wire v t st r s.sh c
-    have hwr := exec_wrote v t st r s.sh c
     have herr := exec_err v t st r s.sh c
     have hcidx : c.idx = (s.th t).pc ∧ (c.wrote = true → noWrite c.rest = true) := by
       rcases current_cases hc with h | ⟨_, call, _, rfl⟩
@@ -1075,7 +1146,7 @@ theorem callInv_step (v : Variant) (cfg : Cfg) (s : State) (t : Tid) (L : LockIn
       · exact ⟨rfl, fun h => by cases h⟩
     obtain ⟨call, hcall, hsrc, hsend, herrc⟩ := C.cur t c hc
     rw [hr] at hsrc hsend herrc
-    generalize exec v t st r s.sh c = p at m hi hw hwr herr
+    generalize exec v t st r s.sh c = p at m hi hw herr
     have hpi : p.2.idx = (s.th t).pc := by rw [hi]; exact hcidx.1
     -- the call in progress after the step still satisfies its facts
     have hsrc_t : srcOk (call.frame cfg) call.msg r = true := by
@@ -1086,7 +1157,7 @@ theorem callInv_step (v : Variant) (cfg : Cfg) (s : State) (t : Tid) (L : LockIn
         obtain ⟨hnj, hw2⟩ := hsend hs
         simp only [noJump, List.all_cons, Bool.and_eq_true] at hnj
         have hnotjump : isJump st = false := by simpa using hnj.1
-        rcases herr with ⟨he, hrest⟩ | ⟨he, _, hrest⟩
+        rcases herr with ⟨he, hrest, hwr⟩ | ⟨he, _, hrest, _⟩
         · have hrest' : p.2.rest = r := by
             rcases hrest with h | h
             · exact h
@@ -1104,7 +1175,7 @@ theorem callInv_step (v : Variant) (cfg : Cfg) (s : State) (t : Tid) (L : LockIn
         · refine ⟨by rw [hrest]; exact all_suffix (toRelease_suffix r) hnj.2, ?_⟩
           intro h1; exact absurd h1 he
       · intro hne
-        rcases herr with ⟨he, _⟩ | ⟨_, hin, hrest⟩
+        rcases herr with ⟨he, _, hwr⟩ | ⟨_, hin, hrest, hwr⟩
         · rw [he] at hne
           obtain ⟨h1, h2⟩ := herrc hne
           simp only [noWrite, List.all_cons, Bool.and_eq_true] at h2
@@ -1112,26 +1183,27 @@ theorem callInv_step (v : Variant) (cfg : Cfg) (s : State) (t : Tid) (L : LockIn
             cases st <;> first | rfl | simp [isWrite] at h2
           refine ⟨?_, moves_noWrite m h2.2⟩
           rw [hwr, hnw2, h1]; rfl
-        · have hnw : noWrite r = false := by
-            cases st <;> simp only [inOnly] at hin <;> try cases hin
-            all_goals
-              simp only [disc, outOnly, inOnly, Bool.and_eq_true] at d
-              have := d.1.2
-              simp at this
-              exact this.2
-          have hcw : c.wrote = false := by
+        · have hcw : c.wrote = false := by
             cases hcw : c.wrote with
             | false => rfl
             | true =>
               have := hcidx.2 hcw
               rw [hr] at this
               simp only [noWrite, List.all_cons, Bool.and_eq_true] at this
-              have h2 := this.2
-              simp only [noWrite] at hnw
-              rw [hnw] at h2; cases h2
-          refine ⟨?_, by rw [hrest]; exact noWrite_toRelease r (disc_tail d)⟩
-          rw [hwr, hcw]
-          cases st <;> first | rfl | cases hin
+              rcases hin with hin | hin
+              · have hnw : noWrite r = false := by
+                  cases st <;> simp only [inOnly] at hin <;> try cases hin
+                  all_goals
+                    simp only [disc, outOnly, inOnly, Bool.and_eq_true] at d
+                    have := d.1.2
+                    simp at this
+                    exact this.2
+                have h2 := this.2
+                simp only [noWrite] at hnw
+                rw [hnw] at h2; cases h2
+              · have h1 := this.1
+                rw [hin] at h1; cases h1
+          exact ⟨by rw [hwr, hcw], by rw [hrest]; exact noWrite_toRelease r (disc_tail d)⟩
     constructor
     · intro u cu hcu
       by_cases hu : u = t
@@ -1164,15 +1236,21 @@ theorem callInv_step (v : Variant) (cfg : Cfg) (s : State) (t : Tid) (L : LockIn
       rw [hw] at hch
       cases st with
       | write1 f =>
-        simp only [List.mem_append, List.mem_singleton] at hch
-        rcases hch with h | h
-        · exact C.wire ch h
-        · subst h; exact ⟨call, hcall, hnew f (Or.inl rfl)⟩
+        simp only at hch
+        split at hch
+        · exact C.wire ch hch
+        · simp only [List.mem_append, List.mem_singleton] at hch
+          rcases hch with h | h
+          · exact C.wire ch h
+          · subst h; exact ⟨call, hcall, hnew f (Or.inl rfl)⟩
       | write2 f =>
-        simp only [List.mem_append, List.mem_singleton] at hch
-        rcases hch with h | h
-        · exact C.wire ch h
-        · subst h; exact ⟨call, hcall, hnew f (Or.inr rfl)⟩
+        simp only at hch
+        split at hch
+        · exact C.wire ch hch
+        · simp only [List.mem_append, List.mem_singleton] at hch
+          rcases hch with h | h
+          · exact C.wire ch h
+          · subst h; exact ⟨call, hcall, hnew f (Or.inr rfl)⟩
       | _ => exact C.wire ch hch
     · intro u i rr hrr
       by_cases hu : u = t
